@@ -86,6 +86,8 @@ type FnCtx struct {
 	globalSeen map[string]bool
 	anchorsDone map[string]bool
 	ghosts   map[string]Val
+	tracked  map[string]bool
+	crType   map[string]types.Type
 	subSeen  map[string]bool
 	localSubs map[string][]string
 	exitBound map[int]bool
@@ -314,7 +316,13 @@ func (fc *FnCtx) havocHeap(h *HeapState, name string) {
 
 func (fc *FnCtx) havocAll(h *HeapState) {
 	fc.e.nextEpoch++
-	h.m = map[string]string{}
+	keep := map[string]string{}
+	for k, v := range h.m {
+		if strings.HasPrefix(k, "$") {
+			keep[k] = v // bookkeeping cells of the verifier (call results/flags) are no program memory
+		}
+	}
+	h.m = keep
 	h.epoch = fc.e.nextEpoch
 }
 
@@ -745,6 +753,8 @@ func (fc *FnCtx) generate() (err error) {
 	fc.collectVarRefs()
 	fc.findFamilies()
 	fc.entry = HeapState{m: map[string]string{}, epoch: 0}
+	fc.crType = map[string]types.Type{}
+	fc.initCallFlags()
 	fc.cur = fc.entry.clone()
 	fc.curReach = "true"
 	// parameters
